@@ -17,8 +17,12 @@ for sd in seeds:
     try:
         t0 = time.time()
         env = dict(os.environ, SCODA_REPO=REPO)
-        p = subprocess.run([os.path.join(VERIF, "check"), prop], capture_output=True, text=True, cwd=VERIF, env=env)
-        out = p.stdout + p.stderr
+        try:
+            p = subprocess.run([os.path.join(VERIF, "check"), prop], capture_output=True, text=True, cwd=VERIF, env=env, timeout=2400)
+            out = p.stdout + p.stderr
+        except subprocess.TimeoutExpired as e:
+            p = type("P", (), {"returncode": "timeout"})()
+            out = ""
         viol = [l for l in out.splitlines() if l.startswith("VIOLATION")]
         detail = ""
         for l in viol:
